@@ -27,6 +27,10 @@ class RegexError(Exception):
     pass
 
 
+class OutsideModel(Exception):
+    """the pattern uses something this model does not cover: the check must answer 'unsupported', never a verdict"""
+
+
 def tokenize(pat, syn):
     s = SYNTAX[syn]
     ops = {"(": "group", ")": "group", "|": "alt", "+": "plus", "?": "qmark"}
@@ -44,7 +48,7 @@ def tokenize(pat, syn):
             elif d in "123456789":
                 out.append(("backref", int(d)))
             elif d.isdigit() or d in "{}<>wWbBsSdDhH`'":
-                raise RegexError("outside the modelled subset: \\" + d)
+                raise OutsideModel("\\" + d)
             else:
                 out.append(("lit", d))
             continue
@@ -69,14 +73,14 @@ def tokenize(pat, syn):
                 if pat[j] == "]" and not first:
                     break
                 if pat[j] in "[\\-":
-                    raise RegexError("outside the modelled subset: bracket with " + pat[j])
+                    raise OutsideModel("bracket expression with " + pat[j])
                 items.append(pat[j])
                 first = False
                 j += 1
             out.append(("set", neg, tuple(items)))
             i = j + 1
         elif c in "^${}":
-            raise RegexError("outside the modelled subset: " + c)
+            raise OutsideModel(c)
         else:
             out.append(("lit", c))
     return out
@@ -146,13 +150,23 @@ def parse(pat, syn, capture=True):
 
 
 def ends(node, text, i, fold, caps=()):
-    """generator of (end position, captures) of matches of node at i, in oniguruma's priority order; captures = ((group, start, end), ...)"""
+    """generator of (end position, captures) of matches of node at i, in oniguruma's priority order; captures = ((group, start, end), ...)
+    fold: True / False, or "dotall" / "fold+dotall" when '.' also matches a newline (ONIG_OPTION_MULTILINE, part of the POSIX syntaxes' options)"""
+    dotall = isinstance(fold, str) and "dotall" in fold
+    if isinstance(fold, str):
+        fold_ = fold.startswith("fold")
+    else:
+        fold_ = bool(fold)
+    return _ends(node, text, i, fold_, dotall, caps)
+
+
+def _ends(node, text, i, fold, dotall, caps):
     k = node[0]
     if k == "lit":
         if i < len(text) and (text[i] == node[1] or (fold and text[i].lower() == node[1].lower())):
             yield i + 1, caps
     elif k == "any":
-        if i < len(text) and text[i] != "\n":
+        if i < len(text) and (dotall or text[i] != "\n"):
             yield i + 1, caps
     elif k == "set":
         if i < len(text):
@@ -168,25 +182,25 @@ def ends(node, text, i, fold, caps=()):
             if cand == piece or (fold and cand.lower() == piece.lower()):
                 yield i + len(piece), caps
     elif k == "group":
-        for q, c in ends(node[2], text, i, fold, caps):
+        for q, c in _ends(node[2], text, i, fold, dotall, caps):
             yield q, c + ((node[1], i, q),)
     elif k == "cat":
         def go(idx, p, c):
             if idx == len(node[1]):
                 yield p, c
                 return
-            for q, c2 in ends(node[1][idx], text, p, fold, c):
+            for q, c2 in _ends(node[1][idx], text, p, fold, dotall, c):
                 yield from go(idx + 1, q, c2)
         yield from go(0, i, caps)
     elif k == "alt":
         for b in node[1]:
-            yield from ends(b, text, i, fold, caps)
+            yield from _ends(b, text, i, fold, dotall, caps)
     elif k == "opt":
-        yield from ends(node[1], text, i, fold, caps)
+        yield from _ends(node[1], text, i, fold, dotall, caps)
         yield i, caps
     elif k in ("star", "plus"):
         def more(p, c, first):
-            for q, c2 in ends(node[1], text, p, fold, c):
+            for q, c2 in _ends(node[1], text, p, fold, dotall, c):
                 if q == p:
                     continue
                 yield from more(q, c2, False)
